@@ -177,6 +177,10 @@ def family_sel(tier='quick'):
                         [('P0', 'I'), ('I', 'Q0')], ['X'],
                         [('C1', 'X', ['P0', 'P1']), ('C2', 'X', ['Q0', 'Q1']), ('C3', 'Q0', ['R0', 'R1'])],
                         choices_first=cf))
+    # choices taken in another order than they are encoded: C2 (below an option of C1) is taken before C3 (ordered by
+    # id) but found one level deeper than C3
+    out.append(_sel('taken-order-differs', ['S1', 'S2', 'P0', 'P1', 'M', 'Q0', 'Q1', 'R0', 'R1'], [('P0', 'M')], ['S1', 'S2'],
+                    [('C1', 'S1', ['P0', 'P1']), ('C3', 'S2', ['R0', 'R1']), ('C2', 'M', ['Q0', 'Q1'])]))
     # the documented example of docs/theory.md (16 nodes, 2 choices, 2 incompatibilities, 6 architectures)
     out.append(theory_example())
     if tier == 'thorough':
